@@ -82,7 +82,7 @@ func wrapperKind(t types.Type) string {
 	case "*math/big.Int":
 		return "ptr"
 	}
-	if typeKey(t) == "error" {
+	if typeKey(t) == "error" || typeKey(t) == "*cosmossdk.io/errors.Error" {
 		return "error"
 	}
 	if b, ok := t.Underlying().(*types.Basic); ok {
